@@ -349,8 +349,56 @@ def install(ifconv=True, pred=True, merged_nmea=True, crc_ifconv=True):
     info['orig'] = orig
     info['mods'] = {'rm': rm, 'rh': rh, 'rr': rr, 'sw': sw}
     _STATE.update(info)
+    _STATE['tracked'] = _track_shared()
+    sym.PATH_RESET_HOOKS[:] = [reset_shared]
     _STATE['done'] = True
     return _STATE
+
+
+SHARED_WRITES = set()     # names of module/class level containers that were written during some path (C13 frame condition)
+
+
+def _track_shared():
+    """module-level / class-level containers that are empty (or None) at import time: the places a cache would live"""
+    import sys as _sys
+    import types
+    tracked = []
+    for name, mod in list(_sys.modules.items()):
+        if not (name == 'pyrtcm' or name.startswith('pyrtcm.')) or mod is None:
+            continue
+        for k, v in list(vars(mod).items()):
+            if k.startswith('__'):
+                continue
+            if isinstance(v, (dict, list, set, bytearray)) and len(v) == 0:
+                tracked.append((mod, k, 'empty', f"{name}.{k}"))
+            elif v is None:
+                tracked.append((mod, k, 'none', f"{name}.{k}"))
+            elif isinstance(v, type) and v.__module__ == name:
+                for ck, cv in list(vars(v).items()):
+                    if ck.startswith('__'):
+                        continue
+                    if isinstance(cv, (dict, list, set, bytearray)) and len(cv) == 0:
+                        tracked.append((v, ck, 'empty', f"{name}.{v.__name__}.{ck}"))
+                    elif cv is None:
+                        tracked.append((v, ck, 'none', f"{name}.{v.__name__}.{ck}"))
+    return tracked
+
+
+def reset_shared():
+    """called at the start of every explored path: state a previous path left in shared containers must not leak into this one
+    (the engine re-executes the code once per path).  Every such write is recorded: it is the C13 'shared state written' flag."""
+    for owner, k, kind, qual in _STATE.get('tracked', ()):
+        try:
+            v = owner.__dict__[k] if isinstance(owner, type) else getattr(owner, k)
+        except (KeyError, AttributeError):
+            continue
+        if kind == 'empty':
+            if isinstance(v, (dict, list, set, bytearray)) and len(v) > 0:
+                SHARED_WRITES.add(qual)
+                v.clear()
+        elif v is not None:
+            SHARED_WRITES.add(qual)
+            setattr(owner, k, None)
 
 
 def set_crc(fn):
